@@ -1,7 +1,6 @@
 package system
 
 import (
-	"errors"
 	"regexp"
 
 	"github.com/uptrace/bun"
@@ -64,6 +63,9 @@ func (h ledgersResourceHandler) ResolveFilter(_ common.ResourceQuery[ListLedgers
 	case property == "metadata":
 		return "metadata -> ? is not null", []any{value}, nil
 	case property == "name":
+		if operator == queries.OperatorIn {
+			return "name IN (?)", []any{bun.In(value)}, nil
+		}
 		return "name " + common.ConvertOperatorToSQL(operator) + " ?", []any{value}, nil
 	default:
 		return "", nil, common.NewErrInvalidQuery("invalid filter property %s", property)
@@ -75,7 +77,7 @@ func (h ledgersResourceHandler) Project(_ common.ResourceQuery[ListLedgersQueryP
 }
 
 func (h ledgersResourceHandler) Expand(_ common.ResourceQuery[ListLedgersQueryPayload], _ string) (*bun.SelectQuery, *common.JoinCondition, error) {
-	return nil, nil, errors.New("no expansion available")
+	return nil, nil, common.NewErrInvalidQuery("no expansion available")
 }
 
 var _ common.RepositoryHandler[ListLedgersQueryPayload] = ledgersResourceHandler{}
